@@ -94,7 +94,11 @@ func zzH_C18_recv() {
 	verifQuiesce()
 	timedOutPlain := false
 	for step := 0; step < verifBound("STEPS") && !done; step++ {
-		switch verifNondetRange(0, 4) {
+		switch verifNondetRange(0, 5) {
+		case 5: // the user pauses and continues at once: no time passes in the pause
+			t.pauseTransferringFiles()
+			verifQuiesce()
+			t.resumeTransferringFiles()
 		case 4: // a short time passes (a reader sitting out a pause wakes up; no time-out runs out)
 			verifAdvanceMs(150)
 		case 0: // the peer (paused itself) sends a keep-alive
